@@ -15,7 +15,7 @@ import os
 import time
 from fractions import Fraction
 import z3
-from pyvc.vc import Contract
+from pyvc.vc import Contract, Ref
 from pyvc.spec import V, And, Or, Not, Implies, If, Abs, Min, Max, Sum, unwrap
 from pyvc.values import Arr, Sym, Obj
 
@@ -331,6 +331,105 @@ class FeedUsedHandedOn(Contract):
         return {"kcals_unchanged": V(unwrap(res)).kcals[i] == a["used"][i]}
 
 
+class RoundConversion(Contract):
+    """Parameters.init_meat_and_dairy_and_feed_from_breeding - the function every round calls on its own herd
+    simulation: milk offered is computed from ALL dairy herds of that simulation, meat from its slaughter lists,
+    the feed handed on is the feed it used."""
+    prop = "C05"
+    file = PA
+    func = "Parameters.init_meat_and_dairy_and_feed_from_breeding"
+    name = "a_rounds_meat_milk_and_feed_come_from_its_own_herds"
+    np_floats = True
+    merge = True
+    replayable = False
+    summaries = {(MD, "MeatAndDairy.get_max_slaughter_monthly_after_distribution_waste"): _monthly_summary,
+                 (MD, "MeatAndDairy.calculate_meat_nutrition"): lambda interp, ctx, fv, args, kwargs: None,
+                 (MD, "MeatAndDairy.get_meat_nutrition"): lambda interp, ctx, fv, args, kwargs: tuple(Fraction(0) for _ in range(8)),
+                 (PA, "Parameters.get_animal_meat_dictionary"): lambda interp, ctx, fv, args, kwargs: {},
+                 ("src/food_system/food.py", "Food.get_running_total_nutrients_sum"): lambda interp, ctx, fv, args, kwargs: _running(interp, ctx, args[0])}
+
+    def inputs(self, S):
+        S.set_conversions(S.real("kd"), S.real("fd"), S.real("pd"), False, False, S.real("pop"))
+        n = S.int("N")
+        S.assume(n >= 1)
+        hs = herds(S, n, with_population=True)
+        used = S.series("feed_used", n)
+        S.forall(n, lambda i: used[i] >= 0)
+        zeros = lambda: V(Arr(unwrap(n), fn=lambda i: Fraction(0), dtype="float"))
+        units = ("billion kcals each month", "thousand tons each month", "thousand tons each month")
+        fm = S.obj(AP, "CalculateFeedAndMeat", all_animals=[h["obj"] for h in hs], feed_used=unwrap(S.food(used, zeros(), zeros(), *units)))
+        o, md = meat_and_dairy(S)
+        y = S.real("MILK_YIELD")
+        S.assume(y >= 0)
+        ci = S.opendict("constants_inputs", {"MILK_YIELD_KG_PER_MILK_BEARING_ANIMAL_PER_YEAR": unwrap(y), "ADD_MILK": True}, closed=True)
+        fr, pr = S.real("fat_ratio"), S.real("protein_ratio")
+        fb = S.obj(FB, "FeedAndBiofuels", fat_to_kcal_ratio_feed=unwrap(fr), protein_to_kcal_ratio_feed=unwrap(pr))
+        return dict(args=[S.obj(PA, "Parameters"), ci, fm, fb, o, {}, {}], hs=hs, md=md, n=n, y=y, used=used)
+
+    def ensures(self, S, a, res):
+        feed_used, _, tc, consts = unwrap(res)
+        i = S.idx("i", a["n"])
+        hs, md = a["hs"], a["md"]
+        dairy = Sum([h["population"][i] for h in hs if "milk" in h["type"]])
+        milk = dairy * a["y"] / 12 / 1000 * 1000 * 610 / 10 ** 9 * (1 - md["MILK_WASTE_DISTRIBUTION"] / 100) * (1 - md["MILK_WASTE_RETAIL"] / 100)
+        meat = Sum([class_total(hs, c, i) * md[YIELD_ATTR[c]] for c in CLASSES]) * (1 - md["MEAT_WASTE_DISTRIBUTION"] / 100)
+        return {"milk_offered_is_all_dairy_herds_x_yield_less_waste": V(tc["milk_kcals"])[i] == milk,
+                "meat_offered_is_herd_slaughter_x_yields_less_distribution_waste": V(tc["each_month_meat_slaughtered"]).kcals[i] == meat,
+                "feed_handed_on_is_the_feed_the_herds_used": V(feed_used).kcals[i] == a["used"][i],
+                "retail_waste_of_meat_handed_to_the_optimiser": V(consts["MEAT_WASTE_RETAIL"]) == md["MEAT_WASTE_RETAIL"]}
+
+
+class YieldsOfEveryRound(Contract):
+    """Every round builds its own MeatAndDairy from the SAME constants dictionary: the per-head yields must come out
+    the same each time (also with the documented large-animal weight override) and the dictionary must be left as
+    it was - a constructor that consumed an entry would give later rounds different yields than the first."""
+    prop = "C05"
+    file = MD
+    func = "MeatAndDairy"
+    np_floats = True
+    merge = True
+    replayable = False
+
+    def __init__(self, override):
+        self.override = override
+        self.name = "same yields in every round" + (" (large-animal weight overridden)" if override else "")
+
+    def inputs(self, S):
+        S.set_conversions(S.real("kd"), S.real("fd"), S.real("pd"), False, False, S.real("pop"))
+        ents = {"NMONTHS": 48, "ADD_MILK": True, "ADD_MEAT": True}
+        for key in ("HUMAN_INEDIBLE_FEED_BASELINE_MONTHLY", "TONS_MILK_ANNUAL", "TONS_CHICKEN_AND_PORK_ANNUAL", "TONS_BEEF_ANNUAL",
+                    "INITIAL_MILK_CATTLE", "INIT_SMALL_ANIMALS", "INIT_MEDIUM_ANIMALS", "INIT_LARGE_ANIMALS_WITH_MILK_COWS", "WASTE_RETAIL",
+                    "MILK_YIELD_KG_PER_MILK_BEARING_ANIMAL_PER_YEAR", "KG_MEAT_PER_PIG", "KG_MEAT_PER_CHICKEN"):
+            ents[key] = unwrap(S.real(key))
+        ents["WASTE_DISTRIBUTION"] = {"MEAT": unwrap(S.real("wm")), "MILK": unwrap(S.real("wmilk"))}
+        for y in range(1, 11):
+            r = S.real(f"RATIO_GRASSES_YEAR{y}")
+            S.assume(And(r >= 0, r <= 10000))
+            ents[f"RATIO_GRASSES_YEAR{y}"] = unwrap(r)
+        w = None
+        if self.override:
+            w = S.real("kg_meat_per_large_animal")
+            S.assume(w > 0)
+            ents["kg_meat_per_large_animal"] = unwrap(w)
+        snapshot = dict(ents)
+        calls = [dict(func="MeatAndDairy", args=[ents]), dict(func="MeatAndDairy.initialize_this_country_animal_kcals", args=[Ref(0), ents]),
+                 dict(func="MeatAndDairy", args=[ents]), dict(func="MeatAndDairy.initialize_this_country_animal_kcals", args=[Ref(2), ents])]
+        return dict(calls=calls, ents=ents, snapshot=snapshot, w=w)
+
+    def ensures(self, S, a, res):
+        r = unwrap(res)
+        m1, m2 = V(r[0]), V(r[2])
+        same = [getattr(m1, n) == getattr(m2, n) for n in YIELD_ATTR.values()] + [m1.KG_PER_LARGE_ANIMAL == m2.KG_PER_LARGE_ANIMAL,
+                                                                                  m1.MEAT_WASTE_DISTRIBUTION == m2.MEAT_WASTE_DISTRIBUTION]
+        out = {"later_rounds_use_the_same_per_head_yields_as_the_first": And(*same),
+               "constants_dictionary_left_as_it_was": V(set(a["ents"].keys()) == set(a["snapshot"].keys())
+                                                        and all(a["ents"][k] is a["snapshot"][k] for k in a["snapshot"]))}
+        if self.override:
+            out["documented_weight_override_is_used"] = And(m1.KG_PER_LARGE_ANIMAL == a["w"],
+                                                            m2.KCALS_PER_LARGE_ANIMAL == a["w"] * m2.LARGE_ANIMAL_KCALS_PER_KG / 10 ** 9)
+        return out
+
+
 # ---- which feed each round's herd simulation runs on (structural obligations over parameters.py) ------------------
 
 def herd_feed_per_round(repo, tier, seed):
@@ -395,7 +494,7 @@ def herd_feed_per_round(repo, tier, seed):
 
 
 CONTRACTS = [MeatProduced(), MilkHerd(), PerHeadYields(), MeatAfterWaste(), MonthlyMeat(1), MonthlyMeat(3), MeatFromFeedResults(), Milk(True),
-             Milk(False), FeedUsedHandedOn()]
+             Milk(False), FeedUsedHandedOn(), YieldsOfEveryRound(False), YieldsOfEveryRound(True), RoundConversion()] + ([MonthlyMeat(6), MonthlyMeat(12)] if os.environ.get("VERIF_TIER") == "thorough" else [])
 EXTRA = [herd_feed_per_round]
 TRUSTED = [
     "machine floats treated as mathematical reals",
